@@ -187,7 +187,7 @@ func goodHeader(rng *hlib.Rng, k *jkey, typ *string) []field {
 
 var headerManips = []string{
 	"alg-none", "alg-other-hash", "alg-other-family", "alg-missing", "alg-nonstring", "alg-case", "alg-empty",
-	"kid-missing", "kid-wrong", "kid-other-key", "kid-nonstring", "kid-added", "kid-empty",
+	"kid-missing", "kid-wrong", "kid-other-key", "kid-nonstring", "kid-added", "kid-empty", "kid-case-flip", "kid-unicode-fold",
 	"crit-array", "crit-null", "crit-string", "crit-empty-array",
 	"typ-nonstring", "extra-fields", "extra-jwk", "header-empty-object", "header-not-object", "header-invalid-json", "header-trailing-data",
 }
@@ -238,6 +238,24 @@ func manipHeader(rng *hlib.Rng, kind string, fs []field, k *jkey, all []*jkey) (
 		fs = setField(fs, "kid", jstr(rng, pickStr(rng)))
 	case "kid-empty":
 		fs = setField(fs, "kid", "\"\"")
+	case "kid-case-flip", "kid-unicode-fold":
+		// the key's kid (the one its id gives, for keys without one) with the case of some letters flipped /
+		// with a letter replaced by another member of its Unicode case-folding orbit (kidtwins.go)
+		base := kidOfID(k.id)
+		if hk := k.headerKid(); hk != nil {
+			base = *hk
+		}
+		v, ok := base, false
+		if kind == "kid-unicode-fold" {
+			v, ok = foldVariant(rng, base)
+		}
+		if !ok {
+			v, ok = flipCase(rng, base, len(base))
+		}
+		if !ok {
+			v = base + "K"
+		}
+		fs = setField(fs, "kid", jstr(rng, v))
 	case "crit-array":
 		fs = setField(fs, "crit", "[\"exp\"]")
 	case "crit-null":
